@@ -36,3 +36,7 @@ package api
 //@ iface api.DeviceLocalInterface.BindingManager pure const
 //@ iface api.DeviceLocalInterface.SubscriptionManager pure const
 //@ iface api.DeviceLocalInterface.NodeManagement pure const
+
+// data update of a remote feature's replicated function data (details: C02)
+//@ iface api.FeatureRemoteInterface.UpdateData
+//@   modifies world
